@@ -23,6 +23,7 @@ func runC20(c *Ctx) {
 	runC20BothSums(c)
 	runC20DeployAllSteps(c)
 	runC20QueueGauges(c)
+	runC20InactivePodsCannotFail(c)
 	runC20DesiredOnLive(c)
 	runC20ErrDrop(c)
 	runC20Inherit(c)
@@ -1117,4 +1118,36 @@ func runC20QueueGauges(c *Ctx) {
 		"gauge vectors that are set for a queue but not cleared for it: "+strings.Join(missing, ", ")+" — their series under the queue's previous metric labels stay for ever")
 	c.Floor("O16", "DUAL gauge vectors set for a queue", len(written), 7)
 	c.Floor("O16", "MPT gauge writes of SetQueueMetrics", n, 1)
+}
+
+// runC20InactivePodsCannotFail (O17): a pod that is neither active nor allocated (Succeeded, Failed) contributes
+// nothing to the PodGroup's sums — and it cannot fail the computation either: GetPodMetadata returns an error only
+// from the computation of a list that the pod's phase selects (behind isActivePod / isAllocatedPod). An unconditional
+// lookup (e.g. of the pod's resource claims, which are deleted when the pod completes) makes every later reconcile of
+// the group fail and freezes its status at the last value.
+func runC20InactivePodsCannotFail(c *Ctx) {
+	f := c.Anchor("O17", "pkg/podgroupcontroller/controllers/metadata", "", "GetPodMetadata")
+	if f == nil {
+		return
+	}
+	selected := func(fs FactSet) bool {
+		_, ok := fs.find(func(ft Fact) bool {
+			return ft.Pol && (isCallNamed(ft.T, "isActivePod") || isCallNamed(ft.T, "isAllocatedPod") || strings.Contains(ft.T.String(), ".Status.Phase"))
+		})
+		return ok
+	}
+	n := 0
+	for _, b := range f.Blocks {
+		ret, ok := b.Instrs[len(b.Instrs)-1].(*ssa.Return)
+		if !ok || len(ret.Results) != 2 {
+			continue
+		}
+		if k, isK := ret.Results[1].(*ssa.Const); isK && k.IsNil() {
+			continue
+		}
+		n++
+		c.Check(c.Fx.allPathsSatisfy(ret, selected), "O17", "RET", funcKey(f)+": an error is returned only from a computation the pod's phase selects", instrPos(ret), "behind isActivePod / isAllocatedPod",
+			"GetPodMetadata can fail for a pod that is neither active nor allocated (a lookup made before the phase tests): a finished pod whose claims were deleted makes every reconcile of its PodGroup fail, and the reported sums stay at their last value")
+	}
+	c.Floor("O17", "RET error exits of GetPodMetadata", n, 2)
 }
